@@ -145,7 +145,7 @@ func sameTick(w *world, rep *vevid.Report) {
 					}
 					m.flush()
 				case "R":
-					if err := w.box.ReopenEngine(); err != nil {
+					if err := w.reopen(); err != nil {
 						vevid.Fatal("special reopen: %v", err)
 					}
 					w.flushedSinceOpen = false
@@ -174,7 +174,7 @@ func emptyMetaFlush(w *world, rep *vevid.Report) {
 			return
 		}
 		// fresh in-memory metadata stores
-		if err := w.box.ReopenEngine(); err != nil {
+		if err := w.reopen(); err != nil {
 			vevid.Fatal("special reopen: %v", err)
 		}
 		w.flushedSinceOpen = false
@@ -206,7 +206,7 @@ func emptyMetaFlush(w *world, rep *vevid.Report) {
 				}
 				m.flush()
 			case "R":
-				if err := w.box.ReopenEngine(); err != nil {
+				if err := w.reopen(); err != nil {
 					vevid.Fatal("special reopen: %v", err)
 				}
 				m.reopen()
